@@ -153,7 +153,19 @@ class Features(Suite):
                 # radii strictly between node distances, and radii that coincide EXACTLY with node distances (perfect squares, exact in
                 # float32 and float64): the count "at any radius" includes the boundary convention (one end ≤ r, the other > r)
                 rs2 = sorted({rng.randint(0, 40) + 0.5 for _ in range(5)} | {1.0, 4.0, 9.0, 16.0, 25.0})
-                out.append({"class": shape, "tree": t, "sholl_r2": rs2, "population": rng.random() < (0.3 if not big else 0.5)})
+                case = {"class": shape, "tree": t, "sholl_r2": rs2, "population": rng.random() < (0.3 if not big else 0.5)}
+                # a third of the trees are DERIVED from a tree that was measured before (copy + node edits, or a library transform):
+                # what is reported must be the derived tree's own morphometrics
+                m = k % 3
+                if m == 1 and t["n"] >= 2:
+                    case["warm"] = {"how": "scale2", "xyz": t["xyz"]}
+                    case["tree"] = dict(t, xyz=[[2 * c for c in q] for q in t["xyz"]], elen=[2 * e for e in t["elen"]])
+                    case["class"] = shape + "/derived-scale"
+                elif m == 2 and t["n"] >= 2:
+                    other = lattice_tree(rng, t["n"], shape)
+                    case["warm"] = {"how": "edit", "xyz": [[c * 3.0 + 0.5 for c in q] for q in t["xyz"]]}
+                    case["class"] = shape + "/derived-edit"
+                out.append(case)
         return out
 
     def run(self, case):
@@ -162,8 +174,24 @@ class Features(Suite):
         from swcgeom.analysis.lmeasure import LMeasure
         from swcgeom.core import Population
 
-        t = gen.make_tree(case["tree"])
         n = case["tree"]["n"]
+        if case.get("warm"):
+            from swcgeom.transforms import Scale
+
+            t0 = gen.make_tree(dict(case["tree"], xyz=case["warm"]["xyz"]))
+            with warnings.catch_warnings():
+                warnings.simplefilter("ignore")
+                t0.length(); fe0 = extract_feature(t0); fe0.get("length"); fe0.get("branch_length"); Sholl(t0).get(); t0.get_branches(); t0.get_paths()
+                NodeFeatures(t0).get_radial_distance(); LMeasure().path_distance(t0.node(n - 1))
+            if case["warm"]["how"] == "scale2":
+                t = Scale(2, 2, 2, center="origin")(t0)
+            else:
+                t = t0.copy()
+                for i, q in enumerate(case["tree"]["xyz"]):
+                    nd = t.node(i); nd.x, nd.y, nd.z = q
+            assert np.array_equal(t.xyz().astype(float), np.array(case["tree"]["xyz"], dtype=float)), "harness: derived tree is not where it should be"
+        else:
+            t = gen.make_tree(case["tree"])
         res = {}
         with warnings.catch_warnings():
             warnings.simplefilter("ignore")
@@ -335,7 +363,51 @@ class Features(Suite):
         return case["tree"]["n"] >= 4
 
 
-SUITES = [Features()]
+class Angles(Suite):
+    """bifurcations whose defining vectors are exactly collinear (daughters leaving in opposite or in the same direction, a daughter
+    continuing the parent segment): the angles are 180 / 0 degrees — boundary values of arccos"""
+    name = "c10.angles"
+
+    def cases(self, rng, tier, widen):
+        out = []
+        dirs = [(3, 3, 0), (1, 2, 3), (1, 1, 1), (2, -1, 5), (0, 3, 3), (7, 1, 0), (1, 0, 0), (5, 5, 5), (3, -3, 0), (1, 3, 0), (2, 2, 1), (6, 3, 2)]
+        if tier == "thorough" or widen:
+            dirs += [(rng.randint(-9, 9), rng.randint(-9, 9), rng.randint(1, 9)) for _ in range(40)]
+        for d in dirs:
+            for kind in ("opposite", "same"):
+                a = rng.randint(1, 3); b = rng.randint(1, 3) + (a if kind == "same" else 0)
+                sgn = -1 if kind == "opposite" else 1
+                o = [rng.randint(-5, 5) for _ in range(3)]
+                stem = [o[i] - 2 * d[i] for i in range(3)]      # the bifurcation continues its parent segment exactly
+                xyz = [stem, o, [o[i] + a * d[i] for i in range(3)], [o[i] + sgn * b * d[i] for i in range(3)]]
+                out.append({"class": kind, "tree": {"n": 4, "pids": [-1, 0, 1, 1], "types": [1, 3, 3, 3], "xyz": [[float(c) for c in q] for q in xyz],
+                                                    "r": [1.0] * 4}, "want": 180.0 if kind == "opposite" else 0.0})
+        return out
+
+    def run(self, case):
+        from swcgeom.analysis.lmeasure import LMeasure
+
+        t = gen.make_tree(case["tree"])
+        lm = LMeasure()
+        with warnings.catch_warnings():
+            warnings.simplefilter("ignore")
+            return {"local": float(lm.bif_ampl_local(t.node(1))), "remote": float(lm.bif_ampl_remote(t.node(1)))}
+
+    def oracle(self, case, res):
+        if "exc" in res:
+            return [("features-raise", f"{res['exc']}: {res.get('msg')}")]
+        out = []
+        for k in ("local", "remote"):
+            if not abs(res[k] - case["want"]) <= 0.05:
+                out.append((f"lm-bif-angle-{k}", f"daughters of node 1 leave in exactly {case['class']} directions {case['tree']['xyz'][2:]} from {case['tree']['xyz'][1]}: "
+                                                   f"{k} amplitude reported {res[k]}, the definition gives {case['want']}"))
+        return out
+
+    def nontrivial(self, case, res):
+        return True
+
+
+SUITES = [Features(), Angles()]
 TECHNIQUE = ("Lean 4 theorems about the feature models (tree length = Σ edge lengths = Σ branch lengths via C08's edge partition; path length = path distance of its tip; "
              "counts, branch order, terminal degree, Sholl straddle count read off their definitions; partition asymmetry REGENERATED from lmeasure.py; zero-padded "
              "population rows) + differential correspondence (exact on integer-edge lattice trees) + an oracle computing every quantity from its definition in float64")
